@@ -208,10 +208,12 @@ def split_run(igb, solvers, timeout, workers=6, object_bits=12, extra=(), log=No
     st = support_timeout or max(60, timeout // 2)
 
     def run_group(group, to):
-        members = [dict(label=s, igb=igb, solver=s, extra=list(extra) + [x for p in group for x in ('--property', p['name'])]) for s in solvers]
-        rs = portfolio(members, to, need_all=False, object_bits=object_bits, kill=False)
-        for s, r in rs.items():
-            pz = r['parsed']
+        # one solver at a time (first the preferred one): twice as many groups run concurrently
+        for s in solvers:
+            m = dict(label=s, igb=igb, solver=s, extra=list(extra) + [x for p in group for x in ('--property', p['name'])])
+            rs = portfolio([m], to, need_all=False, object_bits=object_bits, kill=False)
+            r = rs.get(s)
+            pz = r['parsed'] if r else None
             if pz is not None and pz['status'] in ('success', 'failure') and 'ignoring' not in ' '.join(pz['messages']):
                 return (s, r, pz)
         return None
